@@ -245,16 +245,22 @@ Fixpoint good_all (env : lenv) (s : tree) : Prop :=
       (fix cg (t : tree) : Prop :=
          match t with
          | Bin Chain l r => good_all env l ∧ good_all env r
+         | Bin (Join _ _) l r => cg l ∧ cg r
          | Un _ t' => cg t'
+         | SelM _ _ _ => good_all env t
          | _ => True
          end) skip
   | _ => True
   end.
 
+(* every SELECT marker inside a skip target is itself good: the branch selects of a compound (UNION) select, the
+   operands of a join (stripped or not), a nested select *)
 Fixpoint chains_good (env : lenv) (t : tree) : Prop :=
   match t with
   | Bin Chain l r => good_all env l ∧ good_all env r
+  | Bin (Join _ _) l r => chains_good env l ∧ chains_good env r
   | Un _ t' => chains_good env t'
+  | SelM _ _ _ => good_all env t
   | _ => True
   end.
 
@@ -265,10 +271,12 @@ Proof.
   assert (E : ∀ t, (fix cg (t : tree) : Prop :=
                       match t with
                       | Bin Chain l r => good_all env l ∧ good_all env r
+                      | Bin (Join _ _) l r => cg l ∧ cg r
                       | Un _ t' => cg t'
+                      | SelM _ _ _ => good_all env t
                       | _ => True
                       end) t = chains_good env t).
-  { induction t as [| o t IH | b l _ r _ | | | ]; simpl; auto. }
+  { induction t as [| o t IH | b l IHl r IHr | | | ]; simpl; auto. destruct b; [reflexivity|]. rewrite IHl, IHr. reflexivity. }
   rewrite E. reflexivity.
 Qed.
 
@@ -314,7 +322,7 @@ Proof.
   - unfold slots_wf, no_slots. simpl. repeat split; try set_solver; lia.
   - destruct s' as [| | | | |sl' skip' tgt']; try (destruct A; fail). simpl in B, C. subst.
     unfold sound_result. split; [|split; [|split]].
-    + apply good_all_of_sel; auto. simpl. exact I.
+    + apply good_all_of_sel; auto; simpl; exact Hg.
     + destruct A as (_ & _ & _ & _ & _ & _ & _ & A8). simpl. rewrite A8. unfold slots_sem, no_slots. simpl.
       rewrite sem_sort_nil. reflexivity.
     + destruct A as (_ & _ & _ & _ & _ & A6 & _). simpl. rewrite A6. reflexivity.
@@ -413,7 +421,8 @@ Section Rules2.
     destruct (finish_default o sub) as [t|] eqn:Ef; cbn [rbind] in H; [|discriminate].
     unfold finish_default in Ef. destruct (op_supported _ o); [|discriminate]. injection Ef as <-.
     assert (Hcsub : columns sub = columns S) by (simpl; rewrite A6, G6; reflexivity).
-    refine (reskip_sound env o S (with_sort no_slots (s_sort sl)) (Un o sub) s' H _ _ _ _ _ _ I).
+    refine (reskip_sound env o S (with_sort no_slots (s_sort sl)) (Un o sub) s' H _ _ _ _ _ _ _);
+      [| | | | | |change (good_all env sub); unfold sub; apply good_all_unfold; split; [exact A|exact Hch]].
     - split; [change (op_wf o (columns sub)); rewrite Hcsub; exact Ho|exact A2].
     - simpl. exact A4.
     - assert (Hreq : op_required (Sort (s_sort sl)) ⊆ columns (Un o sub)).
@@ -608,7 +617,9 @@ Section RuleProj.
       pose proof A as (A1 & A2 & A3 & A4 & A5 & A6 & A7 & A8).
       set (sub := SelM (with_slice (with_sort sl []) (0, None)) skip tgt2) in *.
       assert (Hcsub : columns sub = slots_cols sl (columns skip)) by (simpl; rewrite A6; reflexivity).
-      refine (reskip_sound env (Proj cs) S (Slots (s_sort sl) (Some cs) false (s_slice sl)) sub s' H _ _ _ _ _ _ I).
+      refine (reskip_sound env (Proj cs) S (Slots (s_sort sl) (Some cs) false (s_slice sl)) sub s' H _ _ _ _ _ _ _);
+        [| | | | | |unfold sub; change (good_all env (SelM (with_slice (with_sort sl []) (0, None)) skip tgt2));
+                    apply good_all_unfold; split; [exact A|exact Hch]].
       + simpl. exact A2.
       + simpl. exact A4.
       + rewrite Hcsub. split; [|split; [exact Ho1|exact W3]]. cbn [s_sort].
